@@ -57,6 +57,7 @@ type zzShape struct {
 	pr   []zzPr
 	cl   []zzCl // close directives
 	op   []zzOp // open directives on later days
+	cyclic bool // the price graph has alternative paths
 	tied bool   // two more transactions with the same date and description, one's postings a prefix of the other's
 }
 
@@ -95,6 +96,8 @@ var zzShapes = []zzShape{
 	18: {bk: []zzBk{{0, aEq, aA, 0, 0}, {1, aA, aEq, 0, 0}, {4, aEq, aA, 0, 1}}, cl: []zzCl{{2, aA}}, op: []zzOp{{3, aA, true}}},
 	// an account opened only after other accounts have been booked
 	19: {bk: []zzBk{{0, aEq, aA, 0, 0}, {4, aA, aYZ, 0, 1}}, op: []zzOp{{3, aYZ, false}}},
+	// a price graph with alternative paths (C1 in V, C2 in V, C1 in C2): findings C12-F1 / C06-F18
+	20: {bk: []zzBk{{1, aEq, aA, 1, -3}, {1, aEq, aA, 2, -5}}, pr: []zzPr{{0, 1, 0, 0}, {0, 2, 0, 1}, {0, 1, 2, 2}}, cyclic: true},
 }
 
 type zzInputs struct {
